@@ -65,7 +65,7 @@ def handle : Handler := fun op a =>
       let sb ← a.nats "b"
       match a.get? "impl" with
       | some "v1" => pure (showV1 mode sa sb (matmulV1 sa sb))
-      | some "v2" => pure (showSum mode sa sb (matmulV2 sa sb))
+      | some "v2" => pure (showSum mode sa sb (matmulV2C sa sb))
       | _ => none
   | "c16.matmul_helpers" => orBad do
       let sa ← a.nats "a"
@@ -74,19 +74,19 @@ def handle : Handler := fun op a =>
   | "c16.dot" => orBad do
       pure (showSum mode (← a.nats "a") (← a.nats "b") (dot (← a.nats "a") (← a.nats "b")))
   | "c16.inner" => orBad do
-      pure (showSum mode (← a.nats "a") (← a.nats "b") (inner (← a.nats "a") (← a.nats "b")))
+      pure (showSum mode (← a.nats "a") (← a.nats "b") (innerC (← a.nats "a") (← a.nats "b")))
   | "c16.outer" => orBad do
       pure (showProd mode (← a.nats "a") (← a.nats "b") (outer (← a.nats "a") (← a.nats "b")))
   | "c16.vecdot" => orBad do
-      pure (showSum mode (← a.nats "a") (← a.nats "b") (vecdot (← a.nats "a") (← a.nats "b")))
+      pure (showSum mode (← a.nats "a") (← a.nats "b") (vecdotC (← a.nats "a") (← a.nats "b")))
   | "c16.kron" => orBad do
       pure (showProd mode (← a.nats "a") (← a.nats "b") (kron (← a.nats "a") (← a.nats "b")))
   | "c16.tensordot" => orBad do
       let sa ← a.nats "a"
       let sb ← a.nats "b"
       match a.get? "axes" with
-      | some _ => pure (showSum mode sa sb (tensordotInt sa sb (← a.nat "axes")))
-      | none => pure (showSum mode sa sb (tensordotAxes sa sb (← a.ints "la") (← a.ints "ra")))
+      | some _ => pure (showSum mode sa sb (tensordotIntC sa sb (← a.nat "axes")))
+      | none => pure (showSum mode sa sb (tensordotAxesC sa sb (← a.ints "la") (← a.ints "ra")))
   | "c16.trace" => orBad do
       let s ← a.nats "a"
       pure (showTrace mode s (trace s (← a.int "offset") (← a.int "axis1") (← a.int "axis2")))
